@@ -391,10 +391,11 @@ Definition uniq_localized (k : Z) (l reference : loc) (include_rc : bool) (w : l
       match overlap_region ref' reference with
       | None => LError                     (* changing_kmers_zone.indices on None *)
       | Some zone =>
-          let changing := pyslice (loc_indices zone) 0 (- k + 1) in
+          (* k-mer start positions as ranges, whatever the strands (after fix F19) *)
+          let changing := zrange (lstart zone) (lend zone - k + 1) in
           let km := kmer_at s include_rc k in
           let part (lc : loc) :=
-            let all := pyslice (loc_indices lc) 0 (zlen (loc_indices lc) - k + 1) in
+            let all := zrange (lstart lc) (lend lc - k + 1) in
             let fixed := filter (fun i => negb (existsb (Z.eqb i) changing)) all in
             let chg := filter (fun i => existsb (Z.eqb i) changing) all in
             (map km fixed, chg) in
